@@ -208,6 +208,10 @@ func newNode(kind string, mode string) (n *node, err error) {
 		r := statesync.NewReactor(*c.StateSync, proxyApp.Snapshot(), proxyApp.Query(), "")
 		r.SetLogger(nopLogger)
 		n.sw.AddReactor("STATESYNC", r)
+		if e := r.Start(); e != nil { // Receive is a no-op on a reactor that is not running
+			return nil, e
+		}
+		n.stop = append(n.stop, func() { r.Stop() }) //nolint
 		n.reactor = r
 	case "pex":
 		book := pex.NewAddrBook(filepath.Join(dir, "addrbook.json"), false)
@@ -1079,6 +1083,7 @@ func genOtherCase(r *rand.Rand, kind string) []string {
 	for i := 0; i < steps; i++ {
 		var ch byte
 		var b []byte
+		fields := ""
 		k := "opaque-garbage"
 		garbage := func() {
 			b = make([]byte, r.Intn(30))
@@ -1092,10 +1097,12 @@ func genOtherCase(r *rand.Rand, kind string) []string {
 				garbage()
 			case 1:
 				b = mustMarshal(&mpproto.Message{Sum: &mpproto.Message_Txs{Txs: &mpproto.Txs{Txs: [][]byte{}}}})
-				k = "opaque-empty-txs"
+				k = "mp-txs"
+				fields = "n=0 "
 			default:
 				b = mustMarshal(&mpproto.Message{Sum: &mpproto.Message_Txs{Txs: &mpproto.Txs{Txs: [][]byte{rbytes(r, r.Intn(5)), {}, rbytes(r, 3)}}}})
-				k = "opaque-txs"
+				k = "mp-txs"
+				fields = "n=3 "
 			}
 		case "evidence":
 			ch = 0x38
@@ -1115,20 +1122,26 @@ func genOtherCase(r *rand.Rand, kind string) []string {
 			case 0:
 				garbage()
 			case 1:
-				b = mustMarshal(&bcproto.Message{Sum: &bcproto.Message_BlockRequest{BlockRequest: &bcproto.BlockRequest{Height: hostileInt64(r)}}})
-				k = "opaque-blockrequest"
+				h := hostileInt64(r)
+				b = mustMarshal(&bcproto.Message{Sum: &bcproto.Message_BlockRequest{BlockRequest: &bcproto.BlockRequest{Height: h}}})
+				k = "bc-blockrequest"
+				fields = fmt.Sprintf("h=%d ", h)
 			case 2:
-				b = mustMarshal(&bcproto.Message{Sum: &bcproto.Message_StatusResponse{StatusResponse: &bcproto.StatusResponse{Height: hostileInt64(r), Base: hostileInt64(r)}}})
-				k = "opaque-statusresponse"
+				h, bs := hostileInt64(r), hostileInt64(r)
+				b = mustMarshal(&bcproto.Message{Sum: &bcproto.Message_StatusResponse{StatusResponse: &bcproto.StatusResponse{Height: h, Base: bs}}})
+				k = "bc-statusresponse"
+				fields = fmt.Sprintf("h=%d base=%d ", h, bs)
 			case 3:
-				b = mustMarshal(&bcproto.Message{Sum: &bcproto.Message_NoBlockResponse{NoBlockResponse: &bcproto.NoBlockResponse{Height: hostileInt64(r)}}})
-				k = "opaque-noblockresponse"
+				h := hostileInt64(r)
+				b = mustMarshal(&bcproto.Message{Sum: &bcproto.Message_NoBlockResponse{NoBlockResponse: &bcproto.NoBlockResponse{Height: h}}})
+				k = "bc-noblockresponse"
+				fields = fmt.Sprintf("h=%d ", h)
 			case 4:
 				b = mustMarshal(&bcproto.Message{Sum: &bcproto.Message_BlockResponse{BlockResponse: &bcproto.BlockResponse{Block: &tmproto.Block{Header: tmproto.Header{Height: hostileInt64(r)}}}}})
 				k = "opaque-blockresponse"
 			default:
 				b = mustMarshal(&bcproto.Message{Sum: &bcproto.Message_StatusRequest{StatusRequest: &bcproto.StatusRequest{}}})
-				k = "opaque-statusrequest"
+				k = "bc-statusrequest"
 			}
 		case "statesync":
 			ch = byte(0x60 + r.Intn(2))
@@ -1136,17 +1149,23 @@ func genOtherCase(r *rand.Rand, kind string) []string {
 			case 0:
 				garbage()
 			case 1:
-				b = mustMarshal(&ssproto.Message{Sum: &ssproto.Message_SnapshotsResponse{SnapshotsResponse: &ssproto.SnapshotsResponse{Height: uint64(hostileInt64(r)), Format: uint32(r.Intn(3)), Chunks: uint32(hostileInt64(r) & 0xffffffff), Hash: rbytes(r, r.Intn(40))}}})
-				k = "opaque-snapshotsresponse"
+				m := &ssproto.SnapshotsResponse{Height: uint64(hostileInt64(r)), Format: uint32(r.Intn(3)), Chunks: uint32(hostileInt64(r) & 0xffffffff), Hash: rbytes(r, r.Intn(40))}
+				b = mustMarshal(&ssproto.Message{Sum: &ssproto.Message_SnapshotsResponse{SnapshotsResponse: m}})
+				k = "ss-snapshotsresponse"
+				fields = fmt.Sprintf("h=%d hashlen=%d chunks=%d ", m.Height, len(m.Hash), m.Chunks)
 			case 2:
-				b = mustMarshal(&ssproto.Message{Sum: &ssproto.Message_ChunkResponse{ChunkResponse: &ssproto.ChunkResponse{Height: uint64(hostileInt64(r)), Index: uint32(hostileInt64(r) & 0xffffffff), Chunk: rbytes(r, r.Intn(5)), Missing: r.Intn(2) == 0}}})
-				k = "opaque-chunkresponse"
+				m := &ssproto.ChunkResponse{Height: uint64(hostileInt64(r)), Index: uint32(hostileInt64(r) & 0xffffffff), Chunk: rbytes(r, r.Intn(5)), Missing: r.Intn(2) == 0}
+				b = mustMarshal(&ssproto.Message{Sum: &ssproto.Message_ChunkResponse{ChunkResponse: m}})
+				k = "ss-chunkresponse"
+				fields = fmt.Sprintf("h=%d missing=%v chunklen=%d ", m.Height, m.Missing, len(m.Chunk))
 			case 3:
-				b = mustMarshal(&ssproto.Message{Sum: &ssproto.Message_ChunkRequest{ChunkRequest: &ssproto.ChunkRequest{Height: uint64(hostileInt64(r)), Index: uint32(hostileInt64(r) & 0xffffffff)}}})
-				k = "opaque-chunkrequest"
+				m := &ssproto.ChunkRequest{Height: uint64(hostileInt64(r)), Index: uint32(hostileInt64(r) & 0xffffffff)}
+				b = mustMarshal(&ssproto.Message{Sum: &ssproto.Message_ChunkRequest{ChunkRequest: m}})
+				k = "ss-chunkrequest"
+				fields = fmt.Sprintf("h=%d ", m.Height)
 			default:
 				b = mustMarshal(&ssproto.Message{Sum: &ssproto.Message_SnapshotsRequest{SnapshotsRequest: &ssproto.SnapshotsRequest{}}})
-				k = "opaque-snapshotsrequest"
+				k = "ss-snapshotsrequest"
 			}
 		case "pex":
 			ch = 0x00
@@ -1155,16 +1174,18 @@ func genOtherCase(r *rand.Rand, kind string) []string {
 				garbage()
 			case 1:
 				b = mustMarshal(&tmp2pp.Message{Sum: &tmp2pp.Message_PexRequest{PexRequest: &tmp2pp.PexRequest{}}})
-				k = "opaque-pexrequest"
+				k = "pex-request"
 			case 2:
 				b = mustMarshal(&tmp2pp.Message{Sum: &tmp2pp.Message_PexAddrs{PexAddrs: &tmp2pp.PexAddrs{Addrs: []tmp2pp.NetAddress{{ID: "zz", IP: "999.1.1.1", Port: uint32(hostileInt64(r) & 0xffffffff)}}}}})
-				k = "opaque-pexaddrs-bad"
+				k = "pex-addrs"
+				fields = "n=1 wellformed=false "
 			default:
 				b = mustMarshal(&tmp2pp.Message{Sum: &tmp2pp.Message_PexAddrs{PexAddrs: &tmp2pp.PexAddrs{}}})
-				k = "opaque-pexaddrs-unsolicited"
+				k = "pex-addrs"
+				fields = "n=0 wellformed=true "
 			}
 		}
-		if v := g.msg(ch, k, "", b); v != "ok" {
+		if v := g.msg(ch, k, fields, b); v != "ok" {
 			break
 		}
 	}
